@@ -14,7 +14,7 @@ import zlib
 from mc import core, seams, simsock
 
 PROP = 'C14'
-TECH = 'explicit-state BFS over real TCPTransport/TcpServer/TcpConnection objects on simulated sockets: connection-level faults (refuse, reset, silence, peer process replaced, simultaneous dial-in), poll events, virtual time steps and probes as events; closing run from every state'
+TECH = 'explicit-state BFS over real TCPTransport/TcpServer/TcpConnection objects on simulated sockets: connection-level faults (refuse, reset, silence, host without route: connect() fails synchronously, peer process replaced, simultaneous dial-in), poll events, virtual time steps and probes as events; closing run from every state'
 ASSUME = ['simulated non-blocking sockets and level-triggered poll (mc/simsock.py) are the trusted base',
           'whole-buffer transfers (byte-level fragmentation is C13)',
           'a black-holed connect attempt is eventually refused by the OS (connect timeout)',
@@ -110,11 +110,11 @@ def install():
 
 class TransportModel(object):
     def __init__(self, n=2, observers=0, faults=1, times=2, probes=2, restarts=0, drops=0, outsiders=0, closing_every=1,
-                 ro_leaves=0, cold=False):
+                 ro_leaves=0, cold=False, netdowns=0):
         install()
         self.n = n
         self.no = observers
-        self.b = dict(F=faults, T=times, P=probes, R=restarts, D=drops, O=outsiders, L=ro_leaves)
+        self.b = dict(F=faults, T=times, P=probes, R=restarts, D=drops, O=outsiders, L=ro_leaves, N=netdowns)
         self.closing_every = closing_every
         self.closings = 0
         self.cold = cold        # start before any connection exists (default: start with all connections established)
@@ -255,6 +255,12 @@ class TransportModel(object):
             for nd in w.nodes:
                 if nd.alive and nd.idx < self.n:
                     evs.append(('restart', nd.idx))
+        for nd in w.nodes:
+            if nd.alive and nd.idx < self.n:
+                if nd.idx in net.unreachable:
+                    evs.append(('netup', nd.idx))
+                elif w.used['N'] < self.b['N']:
+                    evs.append(('netdown', nd.idx))
         if w.used['L'] < self.b['L']:
             for nd in w.nodes:
                 if nd.alive and nd.idx >= self.n:
@@ -335,6 +341,16 @@ class TransportModel(object):
                 s = net.sockets[ev[1]]
                 p = net.sockets[s.peer]
                 s.blackhole = p.blackhole = True
+            elif k == 'netdown':
+                # the host loses its route: established connections go silent, new connect() calls fail at once
+                w.used['N'] += 1
+                net.unreachable.add(ev[1])
+                for s in net.sockets.values():
+                    if getattr(s, 'owner', None) == ev[1] and s.state == 'connected' and s.peer is not None:
+                        s.blackhole = True
+                        net.sockets[s.peer].blackhole = True
+            elif k == 'netup':
+                net.unreachable.discard(ev[1])
             elif k == 'restart':
                 w.used['R'] += 1
                 self.vanish(w, ev[1])
@@ -458,6 +474,7 @@ class TransportModel(object):
         connection that both sides reported, and a probe each way must arrive."""
         self.closings += 1
         w = copy.deepcopy(w0)
+        w.net.unreachable.clear()
         for s in w.net.sockets.values():
             # silence ends only for connections whose both ends still exist
             if s.blackhole and s.peer is not None and w.net.sockets[s.peer].state != 'closed':
@@ -571,6 +588,8 @@ def jobs_for(tier):
         ('tr2:R1T1P1', dict(n=2, faults=0, times=1, probes=1, restarts=1, closing_every=4)),
         ('tr2:D1T1P1', dict(n=2, faults=0, times=1, probes=1, drops=1, closing_every=4)),
         ('tr2-cold:D1P1', dict(n=2, faults=0, times=0, probes=1, drops=1, closing_every=4, cold=True)),
+        ('tr2-cold:N1T1', dict(n=2, faults=0, times=1, probes=0, netdowns=1, closing_every=2, cold=True)),
+        ('tr2:N1T2', dict(n=2, faults=0, times=2, probes=0, netdowns=1, closing_every=3)),
         ('tr2:O1P1', dict(n=2, faults=0, times=0, probes=1, outsiders=1, closing_every=4)),
         ('tr3:F1', dict(n=3, faults=1, times=0, probes=0, closing_every=6)),
         ('tr1+ro2:L2P1', dict(n=1, observers=2, faults=0, times=0, probes=1, ro_leaves=2, closing_every=2)),
